@@ -35,7 +35,7 @@ def handler : Driver.Handler := fun c i => do
     | .ok m => some (k, m) | .error _ => none
   let oks := runs.filterMap fun (k, o) => match o with | .ok t => some (k, t) | _ => none
   let panics := runs.filterMap fun (k, o) => match o with | .panic m => some s!"{k}: {m.take 100}" | _ => none
-  let errs := runs.filterMap fun (k, o) => match o with | .err e => some (k, e) | _ => none
+  let errs := runs.filterMap fun (k, o) => match o with | .err "timeout" => none | .err e => some (k, e) | _ => none
   let ref? : Option (String × Table) :=
     match oks.find? (fun (k, _) => k.startsWith "mem1@") with
     | some r => some r
